@@ -36,6 +36,13 @@ type Program struct {
 
 	facts   map[*ssa.Function]*FuncFacts
 	getters map[*ssa.Function]getterInfo
+
+	fieldInv      map[*types.Var]bool
+	fieldInvCache map[*types.Var]Interval
+	fieldInvBusy  map[*types.Var]bool
+	paramFrom     map[*ssa.Function]bool
+	paramCache    map[*ssa.Parameter]Interval
+	retBusy       map[*ssa.Function]bool
 }
 
 func repoDir() string {
